@@ -161,4 +161,158 @@ theorem send_before_save_elects_two :
 
 example : (Voter.init.run true [.request 1, .restart, .request 2, .request 1]).sent = [1, 1] := by decide
 
+/-! ## the same through every term
+
+A replica with a current term: a request of an older term is ignored, a request of a newer term
+makes the replica adopt that term (forgetting its vote), and then the vote is granted if it is
+still free or already given to the same candidate. Term and vote are stored together (the hard
+state) before anything leaves when `save = true`. -/
+
+structure VoterT where
+  dTerm : Nat
+  dVote : Option Nat
+  mTerm : Nat
+  mVote : Option Nat
+  sent : List (Nat × Nat)      -- (term, candidate) of every grant that left
+deriving DecidableEq, Repr
+
+inductive VEvT where
+  | request (t c : Nat)
+  | restart
+deriving DecidableEq, Repr
+
+def VoterT.init : VoterT := ⟨0, none, 0, none, []⟩
+
+def VoterT.step (save : Bool) (v : VoterT) : VEvT → VoterT
+  | .restart => { v with mTerm := v.dTerm, mVote := v.dVote }
+  | .request t c =>
+    if t < v.mTerm then v else
+    let vote := if t > v.mTerm then none else v.mVote
+    match vote with
+    | some x =>
+      if x = c then { dTerm := if save then t else v.dTerm, dVote := if save then some x else v.dVote,
+                      mTerm := t, mVote := some x, sent := (t, c) :: v.sent }
+      else { dTerm := if save then t else v.dTerm, dVote := if save then some x else v.dVote,
+             mTerm := t, mVote := some x, sent := v.sent }
+    | none => { dTerm := if save then t else v.dTerm, dVote := if save then some c else v.dVote,
+                mTerm := t, mVote := some c, sent := (t, c) :: v.sent }
+
+def VoterT.run (save : Bool) (v : VoterT) (evs : List VEvT) : VoterT := evs.foldl (VoterT.step save) v
+
+structure VoterT.Inv (v : VoterT) : Prop where
+  dur : v.dTerm = v.mTerm ∧ v.dVote = v.mVote
+  le : ∀ p ∈ v.sent, p.1 ≤ v.mTerm
+  cur : ∀ p ∈ v.sent, p.1 = v.mTerm → v.mVote = some p.2
+  once : ∀ p ∈ v.sent, ∀ q ∈ v.sent, p.1 = q.1 → p.2 = q.2
+
+theorem VoterT.inv_step (v : VoterT) (e : VEvT) (h : v.Inv) : (v.step true e).Inv := by
+  obtain ⟨⟨hd1, hd2⟩, hle, hcur, honce⟩ := h
+  cases e with
+  | restart =>
+    refine ⟨⟨rfl, rfl⟩, ?_, ?_, honce⟩
+    · intro p hp; show p.1 ≤ v.dTerm; rw [hd1]; exact hle p hp
+    · intro p hp hpt
+      show v.dVote = some p.2
+      rw [hd2]; exact hcur p hp (by rw [← hd1]; exact hpt)
+  | request t c =>
+    unfold VoterT.step
+    by_cases hold : t < v.mTerm
+    · simp only [hold, if_true]; exact ⟨⟨hd1, hd2⟩, hle, hcur, honce⟩
+    · simp only [hold, if_false]
+      by_cases hnew : t > v.mTerm
+      · -- a newer term: the vote is free, the grant is the first of its term
+        simp only [hnew, if_true]
+        refine ⟨⟨rfl, rfl⟩, ?_, ?_, ?_⟩
+        · intro p hp
+          rcases List.mem_cons.mp hp with rfl | hp
+          · exact Nat.le_refl _
+          · have := hle p hp; show p.1 ≤ t; omega
+        · intro p hp hpt
+          rcases List.mem_cons.mp hp with rfl | hp
+          · rfl
+          · have := hle p hp; have : p.1 = t := hpt; omega
+        · intro p hp q hq hpq
+          rcases List.mem_cons.mp hp with rfl | hp <;> rcases List.mem_cons.mp hq with rfl | hq
+          · rfl
+          · have := hle q hq; simp only at hpq; omega
+          · have := hle p hp; simp only at hpq; omega
+          · exact honce p hp q hq hpq
+      · have hteq : t = v.mTerm := by omega
+        simp only [hnew, if_false]
+        cases hv : v.mVote with
+        | none =>
+          simp only
+          refine ⟨⟨rfl, rfl⟩, ?_, ?_, ?_⟩
+          · intro p hp
+            rcases List.mem_cons.mp hp with rfl | hp
+            · exact Nat.le_refl _
+            · have := hle p hp; show p.1 ≤ t; omega
+          · intro p hp hpt
+            rcases List.mem_cons.mp hp with rfl | hp
+            · rfl
+            · have := hcur p hp (by have : p.1 = t := hpt; omega); rw [hv] at this; cases this
+          · intro p hp q hq hpq
+            rcases List.mem_cons.mp hp with rfl | hp <;> rcases List.mem_cons.mp hq with rfl | hq
+            · rfl
+            · have := hcur q hq (by simp only at hpq; omega); rw [hv] at this; cases this
+            · have := hcur p hp (by simp only at hpq; omega); rw [hv] at this; cases this
+            · exact honce p hp q hq hpq
+        | some x =>
+          simp only
+          by_cases hx : x = c
+          · subst hx
+            simp only [if_true]
+            refine ⟨⟨rfl, rfl⟩, ?_, ?_, ?_⟩
+            · intro p hp
+              rcases List.mem_cons.mp hp with rfl | hp
+              · exact Nat.le_refl _
+              · have := hle p hp; show p.1 ≤ t; omega
+            · intro p hp hpt
+              rcases List.mem_cons.mp hp with rfl | hp
+              · rfl
+              · have := hcur p hp (by have : p.1 = t := hpt; omega); rw [hv] at this; exact this
+            · intro p hp q hq hpq
+              rcases List.mem_cons.mp hp with rfl | hp <;> rcases List.mem_cons.mp hq with rfl | hq
+              · rfl
+              · have := hcur q hq (by simp only at hpq; omega); rw [hv] at this
+                exact (Option.some.inj this)
+              · have := hcur p hp (by simp only at hpq; omega); rw [hv] at this
+                exact (Option.some.inj this).symm
+              · exact honce p hp q hq hpq
+          · simp only [hx, if_false]
+            refine ⟨⟨rfl, rfl⟩, ?_, ?_, honce⟩
+            · intro p hp; have := hle p hp; show p.1 ≤ t; omega
+            · intro p hp hpt
+              have := hcur p hp (by have : p.1 = t := hpt; omega); rw [hv] at this; exact this
+
+theorem VoterT.inv_run (v : VoterT) (evs : List VEvT) (h : v.Inv) : (v.run true evs).Inv := by
+  induction evs generalizing v with
+  | nil => exact h
+  | cons e rest ih => exact ih _ (v.inv_step e h)
+
+theorem VoterT.inv_init : VoterT.init.Inv :=
+  ⟨⟨rfl, rfl⟩, by simp [VoterT.init], by simp [VoterT.init], by simp [VoterT.init]⟩
+
+/-- **one vote per term, in every term, through any crashes** -/
+theorem VoterT.vote_once (evs : List VEvT) (t a b : Nat)
+    (ha : (t, a) ∈ (VoterT.init.run true evs).sent) (hb : (t, b) ∈ (VoterT.init.run true evs).sent) : a = b :=
+  (VoterT.inv_run VoterT.init evs VoterT.inv_init).once (t, a) ha (t, b) hb rfl
+
+/-- **election safety, every term** -/
+theorem election_safety_every_term (n : Nat) (evs : Nat → List VEvT) (t c₁ c₂ : Nat) (Q₁ Q₂ : List Nat)
+    (h₁ : Majority n Q₁) (h₂ : Majority n Q₂)
+    (g₁ : ∀ r ∈ Q₁, (t, c₁) ∈ (VoterT.init.run true (evs r)).sent)
+    (g₂ : ∀ r ∈ Q₂, (t, c₂) ∈ (VoterT.init.run true (evs r)).sent) : c₁ = c₂ := by
+  obtain ⟨r, hr1, hr2⟩ := quorum_intersection n Q₁ Q₂ h₁ h₂
+  exact VoterT.vote_once (evs r) t c₁ c₂ (g₁ r hr1) (g₂ r hr2)
+
+/-- a vote within an already adopted term that is not stored (seeded change C05-C): the replica
+adopts term 7 on a request it has to refuse... here: grants 3 in term 7 without storing, restarts,
+grants 2 in term 7 -/
+theorem unsaved_vote_in_adopted_term_votes_twice :
+    (VoterT.init.run false [.request 7 3, .restart, .request 7 2]).sent = [(7, 2), (7, 3)] := by decide
+
+example : (VoterT.init.run true [.request 7 3, .restart, .request 7 2, .request 8 2, .request 7 3]).sent
+    = [(8, 2), (7, 3)] := by decide
+
 end Anndb.Quorum
